@@ -58,7 +58,7 @@ func (d Decimal) Ceil(dp int) Decimal {
 		return zero(d.Signbit())
 	}
 
-	dp = dp*-1 + exponentBias
+	dp = clampDP(dp)*-1 + exponentBias
 	iexp := int(exp)
 
 	if iexp >= dp {
@@ -70,7 +70,7 @@ func (d Decimal) Ceil(dp int) Decimal {
 			return zero(d.Signbit())
 		}
 
-		return compose(false, uint128{1, 0}, int16(dp))
+		return composeQuantised(false, uint128{1, 0}, int16(dp))
 	}
 
 	var trunc int8
@@ -112,11 +112,7 @@ func (d Decimal) Ceil(dp int) Decimal {
 		}
 	}
 
-	if exp > maxBiasedExponent {
-		return inf(neg)
-	}
-
-	return compose(neg, sig, exp)
+	return composeQuantised(neg, sig, exp)
 }
 
 // Floor returns the greatest Decimal value less than or equal to d that has no
@@ -139,7 +135,7 @@ func (d Decimal) Floor(dp int) Decimal {
 		return zero(d.Signbit())
 	}
 
-	dp = dp*-1 + exponentBias
+	dp = clampDP(dp)*-1 + exponentBias
 	iexp := int(exp)
 
 	if iexp >= dp {
@@ -151,7 +147,7 @@ func (d Decimal) Floor(dp int) Decimal {
 			return zero(d.Signbit())
 		}
 
-		return compose(true, uint128{1, 0}, int16(dp))
+		return composeQuantised(true, uint128{1, 0}, int16(dp))
 	}
 
 	var trunc int8
@@ -193,11 +189,7 @@ func (d Decimal) Floor(dp int) Decimal {
 		}
 	}
 
-	if exp > maxBiasedExponent {
-		return inf(neg)
-	}
-
-	return compose(neg, sig, exp)
+	return composeQuantised(neg, sig, exp)
 }
 
 // Round rounds (or quantises) a Decimal value to the specified number of
@@ -221,7 +213,7 @@ func (d Decimal) Round(dp int, mode RoundingMode) Decimal {
 		return zero(d.Signbit())
 	}
 
-	dp = dp*-1 + exponentBias
+	dp = clampDP(dp)*-1 + exponentBias
 	iexp := int(exp)
 
 	if iexp >= dp {
@@ -252,8 +244,43 @@ func (d Decimal) Round(dp int, mode RoundingMode) Decimal {
 	neg := d.Signbit()
 	sig, exp = mode.round(false, neg, sig, int16(iexp), trunc, digit)
 
-	if exp > maxBiasedExponent {
-		return inf(neg)
+	return composeQuantised(neg, sig, exp)
+}
+
+// clampDP limits a number of decimal places to the range in which the quantum
+// 10**-dp can make a difference: at or below the smallest exponent every
+// Decimal already is a multiple of it, and one digit above the largest finite
+// Decimal every digit is dropped. Clamping keeps the exponent arithmetic of
+// Ceil, Floor and Round free of overflow.
+func clampDP(dp int) int {
+	if dp > exponentBias {
+		return exponentBias
+	}
+
+	if dp < -(maxUnbiasedExponent + maxDigits + 1) {
+		return -(maxUnbiasedExponent + maxDigits + 1)
+	}
+
+	return dp
+}
+
+// composeQuantised builds the result of Ceil, Floor or Round. The quantum's
+// exponent may lie above the largest exponent of the format while the value is
+// still representable with a longer coefficient.
+func composeQuantised(neg bool, sig uint128, exp int16) Decimal {
+	if sig[0]|sig[1] == 0 {
+		return zero(neg)
+	}
+
+	for exp > maxBiasedExponent {
+		tmp := sig.mul64(10)
+
+		if tmp[1] > 0x0002_7fff_ffff_ffff {
+			return inf(neg)
+		}
+
+		sig = tmp
+		exp--
 	}
 
 	return compose(neg, sig, exp)
